@@ -12,7 +12,7 @@ PROPERTY = "C20"
 LEVEL = "exploration"
 RULE = (
     "a fixed corpus (1:n field mappings, nested pipelines merging tracking sets, regex flag sets, add_condition, filters, "
-    "correlation rule sets, error-producing inputs whose messages join sets, collected errors, validator run) is converted by "
+    "correlation rule sets incl. field lists merged from referenced rules and the correlation rule, error-producing inputs whose messages join sets, collected errors, validator run) is converted by "
     "an identical driver script in separate interpreters for every PYTHONHASHSEED of a covering family (seeds are searched "
     "until every permutation of the iteration order of each probe set of <= 3 corpus strings is realised), x random seeds "
     "{0,1,2} and a forced-collision draw, x 2 process starts; every corpus item's output (queries, finalised output, error "
